@@ -49,12 +49,56 @@ pub fn lang_item(r: &mut Rng, tidy: bool) -> Item {
     } else { r.pick(TAGS).to_string() };
     let w = if r.chance(2, 3) {
         let (a, b) = if tidy || r.chance(3, 4) { (vec![], vec![]) } else { (ows(r), ows(r)) };
-        Some((a, b, r.pick(QVALS).as_bytes().to_vec()))
+        let q = if r.chance(1, 2) { r.pick(QVALS).as_bytes().to_vec() } else { let k = if r.chance(1, 3) { *r.pick(EDGE_K) } else { r.below(1001) as u32 }; qtext(k, r.next()) };
+        Some((a, b, q))
     } else { None };
     let (pre, post) = if tidy { (vec![], vec![]) } else { (if r.chance(1, 2) { b" ".to_vec() } else { ows(r) }, if r.chance(1, 6) { ows(r) } else { vec![] }) };
     let upper_q = w.is_some() && !tidy && r.chance(1, 25);
     Item { pre, tag: tag.into_bytes(), w, post, upper_q }
 }
+/// RFC 7231 qvalue text of k thousandths (0..=1000); `form` picks among the equivalent spellings
+/// ("0.5" / "0.50" / "0.500", "1" / "1." / "1.0" / "1.00" / "1.000", "0" / "0." / "0.0" ..).
+pub fn qtext(k: u32, form: u64) -> Vec<u8> {
+    if k >= 1000 { return [&b"1"[..], b"1.", b"1.0", b"1.00", b"1.000"][(form % 5) as usize].to_vec(); }
+    let full = format!("0.{:03}", k);
+    let min_len = if k == 0 { 1 } else { full.trim_end_matches('0').len() };   // "0" / shortest exact spelling
+    let lens: Vec<usize> = (min_len..=5).filter(|&l| l != 1 || k == 0).collect();
+    let l = lens[(form % lens.len() as u64) as usize];
+    if l == 1 { b"0".to_vec() } else { full.as_bytes()[..l.max(2)].to_vec() }
+}
+fn witem(tag: &str, k: Option<u32>, form: u64, pre: &[u8]) -> Item {
+    Item { pre: pre.to_vec(), tag: tag.as_bytes().to_vec(), w: k.map(|k| (vec![], vec![], qtext(k, form))), post: vec![], upper_q: false }
+}
+fn al_case(items: Vec<Item>) -> String {
+    encode(&Msg { start: Start::Req { method: "GET".into(), target: b"/".to_vec(), v: 1 },
+        hs: vec![H { name: b"Accept-Language".to_vec(), o1: b" ".to_vec(), v: Val::Lang(items), o2: vec![] }] }, &[])
+}
+/// Two (or three) languages of the table whose weights differ by a few thousandths: the ranking must
+/// use the full three decimals (a key rounded to hundredths makes them tie and the earlier one win).
+fn close_weights(r: &mut Rng, out: &mut Vec<String>) {
+    let a = *r.pick(KNOWN_LANGS);
+    let mut b = *r.pick(KNOWN_LANGS);
+    while b == a { b = *r.pick(KNOWN_LANGS); }
+    let d = r.range(1, 9) as u32;
+    let lo = match r.below(4) { 0 => r.range(985, 1000 - d as u64) as u32, 1 => r.range(0, 15) as u32, _ => r.range(0, 1000 - d as u64) as u32 };
+    let hi = lo + d;
+    let sep: &[u8] = if r.chance(1, 2) { b"" } else { b" " };
+    let (f1, f2) = (r.next(), r.next());
+    // the larger weight later (the discriminating order) and earlier
+    out.push(al_case(vec![witem(a, Some(lo), f1, b""), witem(b, Some(hi), f2, sep)]));
+    out.push(al_case(vec![witem(a, Some(hi), f1, b""), witem(b, Some(lo), f2, sep)]));
+    // a third entry: unknown tag with the top weight, or a known language far below / in between
+    let mut c = *r.pick(KNOWN_LANGS);
+    while c == a || c == b { c = *r.pick(KNOWN_LANGS); }
+    match r.below(3) {
+        0 => out.push(al_case(vec![witem("xx", None, 0, b""), witem(a, Some(lo), f1, sep), witem(b, Some(hi), f2, sep)])),
+        1 => out.push(al_case(vec![witem(a, Some(lo), f1, b""), witem(c, Some(lo / 2), f2, sep), witem(b, Some(hi), f2, sep)])),
+        _ => { let mid = lo + r.below(d as u64 + 1) as u32;
+               out.push(al_case(vec![witem(a, Some(lo), f1, b""), witem(c, Some(mid), f2, sep), witem(b, Some(hi), f1, sep)])); }
+    }
+}
+const EDGE_K: &[u32] = &[0, 1, 4, 5, 6, 9, 10, 11, 14, 15, 16, 494, 495, 496, 499, 500, 501, 504, 505, 506, 985, 989, 990, 994, 995, 996, 999, 1000];
+
 pub fn lang_list(r: &mut Rng) -> Vec<Item> {
     let n = r.range(1, 6) as usize;
     let tidy = r.chance(1, 3);
@@ -165,6 +209,32 @@ pub fn gen(r: &mut Rng, tier: &Tier, out: &mut Vec<String>) {
         let m = Msg { start: Start::Req { method: "GET".into(), target: b"/".to_vec(), v: 1 },
             hs: vec![H { name: recase(r, "Accept-Language"), o1: ows(r), v: Val::Lang(lang_list(r)), o2: ows(r) }] };
         out.push(encode(&m, &[]));
+    }
+    // weights a few thousandths apart, both orders, random spellings
+    for _ in 0..tier.scale(400, 6000) { close_weights(r, out); }
+    // rounding boundaries: every ordered pair of edge weights for one fixed pair of languages, and each
+    // edge weight against the default weight (no q parameter) in both orders
+    for (i, &x) in EDGE_K.iter().enumerate() { for (j, &y) in EDGE_K.iter().enumerate() {
+        out.push(al_case(vec![witem("de", Some(x), (i + j) as u64, b""), witem("fr", Some(y), (i * 3 + j) as u64, b" ")]));
+    }}
+    for (i, &x) in EDGE_K.iter().enumerate() {
+        out.push(al_case(vec![witem("it", Some(x), i as u64, b""), witem("en", None, 0, b"")]));
+        out.push(al_case(vec![witem("en", None, 0, b""), witem("it", Some(x), i as u64, b"")]));
+    }
+    // exhaustive-small over the 1001 three-decimal weights for one fixed pair: the later entry larger by d
+    // (quick: d in {1, 5, 9} and the reverse order for d = 1; thorough: every |d| <= 12, both orders)
+    let ds: Vec<i32> = if tier.thorough { (-12..=12).filter(|d| *d != 0).collect() } else { vec![1, 5, 9, -1] };
+    for k in 0..=1000i32 { for &d in &ds {
+        let y = k + d;
+        if !(0..=1000).contains(&y) { continue; }
+        out.push(al_case(vec![witem("es", Some(k as u32), 4, b""), witem("ja", Some(y as u32), 4, b"")]));
+    }}
+    if tier.thorough {   // uniformly random pairs of weights and spellings
+        for _ in 0..30000 {
+            let (x, y) = (r.below(1001) as u32, r.below(1001) as u32);
+            let (f1, f2) = (r.next(), r.next());
+            out.push(al_case(vec![witem("pt", Some(x), f1, b""), witem("ru", Some(y), f2, b" ")]));
+        }
     }
     for al in RAW_AL { for name in ["Accept-Language", "accept-language"] {
         let m = Msg { start: Start::Req { method: "GET".into(), target: b"/".to_vec(), v: 1 },
